@@ -460,6 +460,9 @@ func runC20(c *vk.Ctx) {
 			c.Violate("highlight-panic:"+cls, fmt.Sprintf("BestFragments on %d-byte text with locations %v, fragment size %d: %s", len(cs.Text), cs.Locs, cs.FragSize, firstLines(res.Panic+res.Died, 8)), cs)
 		}
 	}
+	if !c.Quick() {
+		runGoFuzz(c, "FuzzHighlight", 3000000) // coverage-guided no-panic fuzzing of text + location maps
+	}
 	c.Require("fragments_with_marks", 300)
 	c.Require("multi_fragment_results", 100)
 	c.Require("location_sets_with_overlapping_occurrences", 20)
